@@ -365,22 +365,30 @@ Lemma qual_cmp_lawful : lawful qual_cmp.
 Proof.
   destruct Zcmp_lawful as [ZR [ZS ZT]].
   split; [|split]; intro x.
-  - destruct x; unfold c_refl; rewrite ?qual_cmp_form; simpl; rewrite ?ZR; try apply ZR; reflexivity.
-  - intro y. destruct x, y; rewrite ?qual_cmp_form, ?CompOpp_lex2; simpl; try reflexivity; try apply ZS.
-    rewrite <- !ZS. reflexivity.
-  - intros y z. destruct x, y, z; rewrite ?qual_cmp_form;
-      first [apply ZT
+  - destruct x; unfold c_refl; rewrite ?qual_cmp_form; simpl; rewrite ?num_cmp_Q, ?ZR;
+      first [apply ZR | apply Qcmp_refl | reflexivity].
+  - intro y. destruct x, y; rewrite ?qual_cmp_form, ?CompOpp_lex2; simpl; rewrite ?num_cmp_Q;
+      first [reflexivity | apply ZS | apply Qcmp_sym | (rewrite <- !ZS; reflexivity)].
+  - intros y z. destruct x, y, z; rewrite ?qual_cmp_form; simpl; rewrite ?num_cmp_Q;
+      first [apply ZT | apply Qcmp_tr3
             | (apply tr3_lex2; [apply ZT | intros _ _; apply ZT])
             | (unfold tr3; simpl; repeat split; intros; try discriminate; reflexivity)].
 Qed.
 
-Lemma qual_cmp_eq : forall a b, qual_cmp a b = Eq -> a = b.
+(* comparator-equal qualifiers: identical, or WITHIN with the same number of seconds *)
+Definition qual_same (a b : qual) : Prop :=
+  match a, b with
+  | QWithin m1 e1, QWithin m2 e2 => (m1 * 10 ^ Z.of_N e2 = m2 * 10 ^ Z.of_N e1)%Z
+  | _, _ => a = b
+  end.
+
+Lemma qual_cmp_eq : forall a b, qual_cmp a b = Eq -> qual_same a b.
 Proof.
   destruct a, b; intro E; try discriminate.
-  - simpl in E. apply Z.compare_eq in E. congruence.
-  - simpl in E. apply Z.compare_eq in E. congruence.
+  - simpl in E. apply Z.compare_eq in E. simpl. congruence.
+  - simpl. Local Transparent num_cmp. unfold qual_cmp, num_cmp in E. Local Opaque num_cmp. apply Z.compare_eq in E. exact E.
   - rewrite qual_cmp_form in E. apply lex2_eq in E. destruct E as [E1 E2].
-    apply Z.compare_eq in E1. apply Z.compare_eq in E2. congruence.
+    apply Z.compare_eq in E1. apply Z.compare_eq in E2. simpl. congruence.
 Qed.
 
 Lemma ocmp_qual : forall e1 q1 e2 q2, ocmp (OQual e1 q1) (OQual e2 q2) = lex2 (qual_cmp q1 q2) (ocmp e1 e2).
